@@ -191,3 +191,17 @@ Proof.
       * unfold ns1. rewrite fin_upd_final by assumption. rewrite Nat.eqb_refl. reflexivity.
       * apply has_children_false; [apply (inv_bounded _ _ I1) | assumption].
 Qed.
+
+(* the hypotheses of cleanup_lookup are inhabited: root --97--> node 1, node 1 childless and non-final *)
+Example cleanup_hyp_example :
+  let ns := [mkNode (fun s => if s =? 97 then Some 1%nat else None) false; default_node] in
+  bounded ns /\ wchain ns [(0%nat, 97)] 1%nat /\ dead ns 1%nat.
+Proof.
+  cbn zeta. split; [|split].
+  - intros i s c H. unfold child in H. destruct i as [|[|i]]; cbn [nth children default_node] in H.
+    + destruct (N.eqb_spec s 97) as [->|]; [reflexivity | discriminate].
+    + discriminate.
+    + destruct i; discriminate.
+  - cbn [wchain]. split; [right; reflexivity | exact I].
+  - split; [reflexivity | intro s; reflexivity].
+Qed.
